@@ -357,6 +357,57 @@ func runC09(c *fw.Ctx) {
 				}
 			}
 			c09PackageGoast(c, id, p)
+			// the files after go/ast's own package-level resolution with an importer that exposes the
+			// imported packages' scopes (dot-imported names then carry an ast object of the other
+			// package): the types-based resolver decides from go/types alone, as before
+			if files2, info2, pkg2, err := p.Check(srcs, pkgPath); err == nil {
+				byPath := map[string]*types.Package{}
+				for _, ip := range pkg2.Imports() {
+					byPath[ip.Path()] = ip
+					byPath[oracleStripVendor(ip.Path())] = ip
+				}
+				importer := func(imports map[string]*ast.Object, path string) (*ast.Object, error) {
+					if o := imports[path]; o != nil {
+						return o, nil
+					}
+					tp := byPath[path]
+					if tp == nil {
+						return nil, fmt.Errorf("unknown package %s", path)
+					}
+					po := ast.NewObj(ast.Pkg, tp.Name())
+					sc := ast.NewScope(nil)
+					for _, n := range tp.Scope().Names() {
+						kind := ast.Var
+						switch tp.Scope().Lookup(n).(type) {
+						case *types.Func:
+							kind = ast.Fun
+						case *types.TypeName:
+							kind = ast.Typ
+						case *types.Const:
+							kind = ast.Con
+						}
+						sc.Insert(ast.NewObj(kind, n))
+					}
+					po.Data = sc
+					imports[path] = po
+					return po, nil
+				}
+				fm := map[string]*ast.File{}
+				for k, af := range files2 {
+					fm[p.Files[k].Name] = af
+				}
+				ast.NewPackage(p.Fset, fm, importer, nil)
+				for k, af := range files2 {
+					d := decorator.NewDecoratorWithImports(p.Fset, pkgPath, gotypes.New(info2.Uses))
+					df, err := d.DecorateFile(af)
+					if err != nil {
+						c.Violate("decorate-error", "decorate-error:gotypes-after-newpackage", id+": "+err.Error(), p.Files[k].Src)
+						continue
+					}
+					c09CheckFile(c, fmt.Sprintf("%s/%s/after-ast.NewPackage", id, p.Files[k].Name), d, af, df, info2, pkg2, false, p.Files[k].Src)
+					c.Count("files:after-newpackage", 1)
+				}
+			}
 			if i < 3 {
 				c.Sample(map[string]interface{}{"case": id, "files": srcs})
 			}
